@@ -478,6 +478,28 @@ func init() {
 		Doc:   "in visitDocument every storage access is dominated by num < footer.numDocs, and the visiting loop continues only while the visitor returned true (the loop variable is defined by the visitor's result and the initial true only)",
 		Run: func(c *Ctx, scope string, r *Report) {
 			fn := c.MustFn("(*Segment).visitDocument")
+			entryFn := fn
+			// the guard (and the storage accesses behind it) may sit in a helper that fetches the record
+			hasGuardTest := func(f *ssa.Function) bool {
+				for _, b := range f.Blocks {
+					if ifi, ok := b.Instrs[len(b.Instrs)-1].(*ssa.If); ok {
+						if bin, ok := ifi.Cond.(*ssa.BinOp); ok && (bin.Op == token.LSS || bin.Op == token.GEQ) {
+							if ld, ok := bin.Y.(*ssa.UnOp); ok && strings.HasSuffix(accessPath(ld.X), ".footer.numDocs") {
+								return true
+							}
+						}
+					}
+				}
+				return false
+			}
+			if !hasGuardTest(fn) {
+				for _, sc := range staticCallees(fn) {
+					if c.inRoot(sc) && sc.Blocks != nil && hasGuardTest(sc) {
+						fn = sc
+						break
+					}
+				}
+			}
 			// (a) numDocs guard
 			var guard *ssa.BasicBlock
 			for _, b := range fn.Blocks {
@@ -511,7 +533,7 @@ func init() {
 				for _, b := range fn.Blocks {
 					for _, ins := range b.Instrs {
 						if ci, ok := ins.(ssa.CallInstruction); ok {
-							if sc := ci.Common().StaticCallee(); sc != nil && c.inRoot(sc) && !guard.Dominates(b) {
+							if sc := ci.Common().StaticCallee(); sc != nil && c.inRoot(sc) && !guard.Dominates(b) && reachesDataRead(c, sc, 0) {
 								bad = "call of " + fnName(sc) + " at " + c.pos(ins.Pos()) + " is not behind the numDocs guard"
 							}
 							if cb, _ := isCallbackCall(ci.Common()); cb && !guard.Dominates(b) {
@@ -525,6 +547,19 @@ func init() {
 				} else {
 					r.ok("visitDocument/numDocs-guard", fnName(fn), c.pos(fn.Pos()), "every read and visitor call is dominated by num < footer.numDocs")
 				}
+			}
+			if fn != entryFn && guard != nil {
+				for _, b := range entryFn.Blocks {
+					for _, ins := range b.Instrs {
+						if ci, ok := ins.(ssa.CallInstruction); ok {
+							if sc := ci.Common().StaticCallee(); sc != nil && c.inRoot(sc) && sc != fn && reachesDataRead(c, sc, 0) {
+								r.bad("visitDocument/numDocs-guard", fnName(entryFn), c.pos(ins.Pos()), "call of "+fnName(sc)+" reaches the segment data without passing the numDocs guard of "+fnName(fn))
+							}
+						}
+					}
+				}
+				fn = entryFn
+				guard = nil // (c) is about the function that holds the guard and the loop together
 			}
 			// (c) inside the guarded region the only exits before the visitor is first called are error returns
 			if guard != nil {
@@ -621,6 +656,38 @@ func init() {
 					if ifi, ok := r2.(*ssa.If); ok && allOK {
 						// true edge continues the loop: the block calling the visitor must be reachable only via it
 						if ifi.Block().Succs[0].Dominates(vcall.Block()) {
+							okLoop = true
+						}
+					}
+				}
+			}
+			if !okLoop {
+				// `if !visitor(…) { break }`: the result is tested directly and its false edge leaves the loop
+				var hdr *ssa.BasicBlock
+				for x := vcall.Block(); x != nil; x = x.Idom() {
+					if isLoopHeader(x) && loopBody(x)[vcall.Block()] {
+						hdr = x
+						break
+					}
+				}
+				if hdr != nil {
+					body := loopBody(hdr)
+					for _, ref := range *vcall.Referrers() {
+						var ifi *ssa.If
+						falseIdx := 1
+						switch x := ref.(type) {
+						case *ssa.If:
+							ifi = x
+						case *ssa.UnOp:
+							if x.Op == token.NOT && x.Referrers() != nil {
+								for _, r2 := range *x.Referrers() {
+									if i2, ok := r2.(*ssa.If); ok {
+										ifi, falseIdx = i2, 0
+									}
+								}
+							}
+						}
+						if ifi != nil && !body[ifi.Block().Succs[falseIdx]] && body[ifi.Block().Succs[1-falseIdx]] {
 							okLoop = true
 						}
 					}
@@ -735,6 +802,28 @@ func errReturnReachableAfter(b *ssa.BasicBlock, i int) *ssa.Return {
 		return nil
 	}
 	return check(b, i+1)
+}
+
+// reachesDataRead: fn, or an in-package function it calls (three levels), reads the segment data.
+func reachesDataRead(c *Ctx, fn *ssa.Function, depth int) bool {
+	if fn.Blocks == nil || depth > 3 {
+		return false
+	}
+	for _, b := range fn.Blocks {
+		for _, ins := range b.Instrs {
+			ci, ok := ins.(ssa.CallInstruction)
+			if !ok {
+				continue
+			}
+			if isDataRead(ci.Common()) {
+				return true
+			}
+			if sc := ci.Common().StaticCallee(); sc != nil && c.inRoot(sc) && sc != fn && reachesDataRead(c, sc, depth+1) {
+				return true
+			}
+		}
+	}
+	return false
 }
 
 // isFuncParamOf: v is a parameter of fn that has a function type (a visitor callback).
